@@ -385,7 +385,9 @@ func (s *LegacyServer) Introspect(ctx context.Context, r *Request[IntrospectionR
 	}
 	err = s.provider.Storage().SetIntrospectionFromToken(ctx, response, tokenID, subject, clientID)
 	if err != nil {
-		return NewResponse(response), nil
+		// the storage may have (partially) filled the response before it failed:
+		// an inactive answer must not disclose anything but active=false
+		return NewResponse(new(oidc.IntrospectionResponse)), nil
 	}
 	response.Active = true
 	return NewResponse(response), nil
